@@ -382,8 +382,8 @@ def tokInt (pf : Bytes → Fl) : Tok → Int × NumErr
   | .float f _ =>                                                       -- case 'f', 'F'
     let i := f64toi64 f
     if !f.isIntegral then (i, .syntax)
-    -- (i64 == minInt64 && f64 < minInt64) || (i64 == maxInt64 && f64 > maxInt64); float64(maxInt64) = 2^63
-    else if (i == -(2 ^ 63) && f.neg && f.absGt (2 ^ 63)) || (i == 2 ^ 63 - 1 && !f.neg && f.absGt (2 ^ 63)) then (i, .range)
+    -- (i64 == minInt64 && f64 < minInt64) || (i64 == maxInt64 && f64 >= maxInt64+1)
+    else if (i == -(2 ^ 63) && f.neg && f.absGt (2 ^ 63)) || (i == 2 ^ 63 - 1 && !f.neg && f.absGe (2 ^ 63)) then (i, .range)
     else (i, .none)
 
 /-- Token.Uint, all number forms. -/
@@ -394,8 +394,8 @@ def tokUint (pf : Bytes → Fl) : Tok → Nat × NumErr
   | .float f _ =>
     let u := f64tou64 f
     if !f.isIntegral || f.neg then (u, .syntax)                         -- math.Signbit(f64): also -0
-    -- (u64 == minUint64 && f64 < minUint64) || (u64 == maxUint64 && f64 > maxUint64); float64(maxUint64) = 2^64
-    else if u == 2 ^ 64 - 1 && f.absGt (2 ^ 64) then (u, .range)
+    -- (u64 == minUint64 && f64 < minUint64) || (u64 == maxUint64 && f64 >= maxUint64+1); the first cannot hold here
+    else if u == 2 ^ 64 - 1 && f.absGe (2 ^ 64) then (u, .range)
     else (u, .none)
 
 /-- Round a dyadic value to a binary format (Go's float64→float32 and int→float conversions: nearest, ties to even). -/
